@@ -415,6 +415,17 @@ def norm_name(name):
     return "/".join(out)
 
 
+def visited_dirs(name):
+    """Normalised directories a reader passes through when it creates the parents of `name`."""
+    comps = name.rstrip("/").split("/")
+    out = set()
+    for i in range(1, len(comps)):
+        nn = norm_name("/".join(comps[:i]))
+        if nn:
+            out.add(nn)
+    return out
+
+
 def members_classes(members):
     cls = set()
     normed = []
@@ -422,14 +433,12 @@ def members_classes(members):
         c = name_class(name)
         if c != "plain":
             cls.add(c)
-        nn = norm_name(name)
-        if nn:
-            normed.append((nn, kind))
-    for i, (a, ka) in enumerate(normed):
-        for j, (b, kb) in enumerate(normed):
-            if i == j:
+        normed.append((norm_name(name), kind, visited_dirs(name)))
+    for i, (a, ka, _va) in enumerate(normed):
+        for j, (b, kb, vb) in enumerate(normed):
+            if i == j or not a:
                 continue
-            if (a == b and i < j) or (ka == "f" and b.startswith(a + "/")):
+            if (a == b and i < j) or (ka == "f" and a in vb):
                 cls.add("conflicting-entries")  # same resulting name twice, or a file used as a directory
     if "conflicting-entries" in cls:
         cls.discard("non-normalised")
@@ -479,22 +488,27 @@ class Hang(BaseException):
     """Raised by the per-query watchdog (not an Exception: nothing in /repo may swallow it)."""
 
 
+def _fire(signum, frame):
+    raise Hang()
+
+
 class watchdog(object):
+    """Per-query time limit (main thread only; the handler is installed once)."""
+    installed = False
+
     def __init__(self, seconds):
         self.seconds = seconds
 
-    def _fire(self, signum, frame):
-        raise Hang()
-
     def __enter__(self):
         import signal
-        self.old = signal.signal(signal.SIGALRM, self._fire)
+        if not watchdog.installed:
+            signal.signal(signal.SIGALRM, _fire)
+            watchdog.installed = True
         signal.setitimer(signal.ITIMER_REAL, self.seconds)
 
     def __exit__(self, *a):
         import signal
         signal.setitimer(signal.ITIMER_REAL, 0)
-        signal.signal(signal.SIGALRM, self.old)
 
 
 def _audit(event, args):
@@ -533,7 +547,14 @@ def run_crafted(case, workdir):
         sys.addaudithook(_audit)
         _AUDIT["installed"] = True
     members = [tuple(m) for m in case["members"]]
-    outer = tempfile.mkdtemp(prefix="canary_", dir=workdir)
+    outer = os.path.join(workdir, "canary")
+    box = os.path.join(outer, "l1", "l2", "box")
+    if not os.path.isdir(box):
+        # outer/canary.txt, outer/l1/canary.txt, outer/l1/l2/canary.txt, archive in outer/l1/l2/box/
+        os.makedirs(box)
+        for d in (outer, os.path.join(outer, "l1"), os.path.join(outer, "l1", "l2")):
+            with open(os.path.join(d, "canary.txt"), "w") as fh:
+                fh.write("canary")
     details = []
     kinds = set()
 
@@ -541,13 +562,8 @@ def run_crafted(case, workdir):
         kinds.add(kind)
         if len(details) < 12:
             details.append(dict(kind=kind, **kw))
+    arch = os.path.join(box, "crafted." + case["fmt"])
     try:
-        box = os.path.join(outer, "l1", "l2", "box")
-        os.makedirs(box)
-        for d in (outer, os.path.join(outer, "l1"), os.path.join(outer, "l1", "l2")):
-            with open(os.path.join(d, "canary.txt"), "w") as fh:
-                fh.write("canary")
-        arch = os.path.join(box, "crafted." + case["fmt"])
         make_crafted(case["fmt"], members, arch)
         before = snapshot(outer)
         targets = set()
@@ -586,7 +602,10 @@ def run_crafted(case, workdir):
             if p.startswith(outer + os.sep) or p in targets:
                 fail("outside-opened", path=p, mode=str(mode))
     finally:
-        shutil.rmtree(outer, ignore_errors=True)
+        if kinds & {"outside-touched"}:
+            shutil.rmtree(outer, ignore_errors=True)
+        elif os.path.exists(arch):
+            os.remove(arch)
     return kinds, details
 
 
@@ -682,6 +701,26 @@ def normal_kinds(kinds):
     return out | kinds
 
 
+def selftest_canary(workdir):
+    """The outside-access detectors must fire on a deliberately leaking query."""
+    run_crafted(dict(fmt="tar", members=[]), workdir)           # creates the canary tree, installs the hook
+    outer = os.path.join(workdir, "canary")
+    before = snapshot(outer)
+    _AUDIT["events"] = []
+    _AUDIT["on"] = True
+    try:
+        with open(os.path.join(outer, "l1", "canary.txt")) as fh:
+            fh.read()
+        with open(os.path.join(outer, "l1", "l2", "leak"), "w") as fh:
+            fh.write("x")
+    finally:
+        _AUDIT["on"] = False
+    seen_open = any(p.endswith(os.path.join("l1", "canary.txt")) for p, _m, _f in _AUDIT["events"])
+    seen_create = snapshot(outer) != before
+    os.remove(os.path.join(outer, "l1", "l2", "leak"))
+    return seen_open and seen_create
+
+
 def crafted_signature(case, kind):
     return "crafted %s: %s [%s]" % (case["fmt"], kind, members_classes([tuple(m) for m in case["members"]]))
 
@@ -699,6 +738,14 @@ def shrink_crafted(case, kind, workdir):
                 members = cand
                 changed = True
                 break
+    # prefer normalised spellings where the failure does not depend on the spelling
+    for i in range(len(members)):
+        nn = norm_name(members[i][0])
+        if nn and nn != members[i][0]:
+            cand = members[:i] + [[nn, members[i][1]]] + members[i + 1:]
+            k2, _d = run_crafted(dict(fmt=case["fmt"], members=cand), workdir)
+            if kind in normal_kinds(k2):
+                members = cand
     return dict(fmt=case["fmt"], members=members)
 
 
@@ -929,6 +976,9 @@ def run(report):
     proof = common.preflight(report)
     workdir = tempfile.mkdtemp(prefix="pyfs2verif_c15_")
     try:
+        if not selftest_canary(workdir):
+            report.violation(dict(kind="harness-selftest", what="canary detectors did not fire",
+                                  theorem="Props/C15.v"), no_input=True)
         plan = explore(report.tier, report.seed)
         failures = evaluate(plan, workdir)
         known_local = local_known()
@@ -974,7 +1024,10 @@ def replay(report, path):
         d = json.load(fh)
     workdir = tempfile.mkdtemp(prefix="pyfs2verif_c15_")
     try:
-        case = d["case"]
+        case = d.get("case")
+        if case is None:
+            print("nothing to replay:", d.get("what"))
+            return 1
         if d.get("kind") == "crafted-archive":
             kinds, det = run_crafted(case, workdir)
             print("members:", case["members"], "format:", case["fmt"])
